@@ -377,6 +377,27 @@ def part_from_int(r, case):
                     r.bad('law-violated', 'semirings.' + type(S).__name__, 'from_int', '%s %s: from_int(%d)+from_int(%d)=%r vs from_int(%d)=%r; product %r vs %r' % (sem, dt, m, n, s1.tolist(), m + n, s2.tolist(), p1.tolist(), p2.tolist()), case, key)
                 else:
                     r.ok(key, outcome='from_int', nontrivial=m + n > 1)
+            # histories: a constant obtained from from_int is used as an accumulator (in-place add_/mul/fill) and
+            # from_int is asked again - it must still return the homomorphic image, for ints and for tensors
+            for n in (0, 1, 2):
+                key = (case, sem, dt, 'accumulator', n)
+                try:
+                    want = S.from_int(n).clone()
+                    acc = S.from_int(n)
+                    S.add_(acc, S.from_int(3))
+                    acc2 = S.from_int(n)
+                    acc2.copy_(S.from_int(5))
+                    src = torch.tensor(n)
+                    acc3 = S.from_int(src)
+                    acc3.copy_(S.from_int(7))
+                    again, again_t = S.from_int(n), S.from_int(torch.tensor(n))
+                    okh = bool((again == want).all()) and bool((again_t == want).all()) and int(src) == n and again.dtype == want.dtype
+                    if not okh:
+                        r.bad('law-violated', 'semirings.' + type(S).__name__, 'from_int', '%s %s: after using from_int(%d) as an in-place accumulator, from_int(%d) = %r / %r (expected %r), source tensor %r' % (sem, dt, n, n, again.tolist(), again_t.tolist(), want.tolist(), src.tolist()), case, key)
+                    else:
+                        r.ok(key, outcome='from_int-history', nontrivial=True)
+                except Exception as e:
+                    r.exc(e, 'from_int', case, key)
             # from_int on tensors (used by eye/zeros)
             t = S.from_int(torch.tensor([0, 1, 2]))
             if not (bool(t[0] == S.from_int(0)) and bool(t[1] == S.from_int(1))):
